@@ -1,4 +1,5 @@
 import SlogModel.Model.Cfg
+import SlogModel.Model.CfgSer
 import SlogModel.Lemmas.XformTotal
 import SlogModel.Gen.Facts
 
@@ -324,5 +325,101 @@ example : verifySteps sampleSchema sampleCfg = true := by decide
 example : verifyStep sampleSchema (.extract false (b!"log") (b!"foo*") 50 (b!"app")) = false := by decide
 /-- a reference to a field that is not in the schema is rejected at every nesting depth -/
 example : verifySteps sampleSchema [.block [.iff [(b!"app", .any)] [.unescape (b!"nosuchfield")]]] = false := by decide
+
+
+/-! ### the output section: serializer and rewriters (`Model/CfgSer.lean`) -/
+
+open CfgSer in
+theorem chainNew_ok (sch : Cfg.Schema) : ∀ (ch : List Rw), chainVerify sch ch = true →
+    ∃ r, chainNew sch ch = .ok r ∧ (ch ≠ [] → r.isSome = true)
+  | [], _ => ⟨none, rfl, by simp⟩
+  | [r], h => by
+    cases r <;> simp [chainVerify, rwVerify] at h
+    · exact ⟨some .copy, by simp [chainNew, rwNew, bind, Except.bind, pure, Except.pure], by simp⟩
+    · exact ⟨some .unescape, by simp [chainNew, rwNew, bind, Except.bind, pure, Except.pure], by simp⟩
+  | r :: r' :: rest, h => by
+    simp only [chainVerify, Bool.and_eq_true] at h
+    obtain ⟨n, hn, hsome⟩ := chainNew_ok sch (r' :: rest) h.2
+    have hn' := hsome (by simp)
+    cases hnx : n with
+    | none => rw [hnx] at hn'; simp at hn'
+    | some nx =>
+      cases r <;> simp [rwVerify] at h
+      case inline f =>
+        obtain ⟨⟨_, hloc⟩, _⟩ := h
+        cases hl : Cfg.locate sch f with
+        | none => simp [hl] at hloc
+        | some i =>
+          refine ⟨some (.inline i nx), ?_, by simp⟩
+          rw [chainNew, hn, hnx]
+          simp [rwNew, hl, bind, Except.bind, pure, Except.pure]
+
+open CfgSer in
+theorem buildRewriters_ok (sch : Cfg.Schema) (m : List (Bytes × List Rw)) (hm : ∀ p ∈ m, chainVerify sch p.2 = true) :
+    ∀ (names : List Bytes), ∃ l, buildRewriters sch m names = .ok l
+  | [] => ⟨[], rfl⟩
+  | name :: rest => by
+    obtain ⟨t, ht⟩ := buildRewriters_ok sch m hm rest
+    simp only [buildRewriters]
+    cases hl : lookupRw m name with
+    | none => exact ⟨none :: t, by simp [ht, bind, Except.bind, pure, Except.pure]⟩
+    | some ch =>
+      have hmem : ∃ p ∈ m, p.2 = ch := by
+        unfold lookupRw at hl
+        cases hf : m.find? (fun p => p.1 = name) with
+        | none => simp [hf] at hl
+        | some p =>
+          simp [hf] at hl
+          exact ⟨p, List.mem_of_find?_eq_some hf, hl⟩
+      obtain ⟨p, hp, rfl⟩ := hmem
+      obtain ⟨r, hr, _⟩ := chainNew_ok sch p.2 (hm p hp)
+      exact ⟨r :: t, by simp [hr, ht, bind, Except.bind, pure, Except.pure]⟩
+
+theorem mapM_locate_some (sch : Cfg.Schema) : ∀ (l : List Bytes), l.all (fun f => (Cfg.locate sch f).isSome) = true →
+    ∃ locs, l.mapM (Cfg.locate sch) = some locs
+  | [], _ => ⟨[], rfl⟩
+  | f :: r, h => by
+    simp only [List.all_cons, Bool.and_eq_true] at h
+    obtain ⟨t, ht⟩ := mapM_locate_some sch r h.2
+    cases hl : Cfg.locate sch f with
+    | none => simp [hl] at h
+    | some i => exact ⟨i :: t, by simp [List.mapM_cons, hl, ht]⟩
+
+open CfgSer in
+/-- **C16 (the output section).** A Fluentd Forward output section that `VerifyConfig` accepts is instantiated —
+environment-field locators, one rewriter chain per rewritten schema field (masked or not), field masks — without reaching
+a `logger.Panic` / `Must…` site of `NewEventSerializer`, `NewRewritersFromConfig` or a rewriter's `NewRewriter`, and
+without an error value. -/
+theorem C16_serializer_verify_sound (sch : Cfg.Schema) (c : Out) (h : verify sch c = true) :
+    ∃ s, construct sch c = .ok (some s) := by
+  simp only [verify, Bool.and_eq_true] at h
+  obtain ⟨⟨⟨⟨⟨⟨⟨_, henv⟩, _⟩, hrw⟩, _⟩, _⟩, _⟩, _⟩ := h
+  obtain ⟨locs, hlocs⟩ := mapM_locate_some sch c.env henv
+  have hm : ∀ p ∈ c.rewrite, chainVerify sch p.2 = true := by
+    intro p hp
+    have := List.all_eq_true.mp hrw p hp
+    simp only [Bool.and_eq_true] at this
+    exact this.2
+  obtain ⟨l, hl⟩ := buildRewriters_ok sch c.rewrite hm sch.names
+  refine ⟨{ envLocators := locs, rewriters := l,
+             masks := sch.names.map (fun n => c.env.contains n || c.hidden.contains n) }, ?_⟩
+  simp [construct, hlocs, hl, bind, Except.bind, pure, Except.pure]
+
+def demoSch : Cfg.Schema := ⟨[b!"log", b!"class", b!"task"]⟩
+def demoOut (ch : List CfgSer.Rw) : CfgSer.Out :=
+  { env := [b!"task"], hidden := [b!"class"], rewrite := [(b!"class", ch)], mode := b!"Forward",
+    addrGiven := true, addrSplits := true, maxDurationSet := true }
+
+open CfgSer in
+/-- what verification rules out, on concrete sections: `inline` last, a step after `copy`, an unknown inline field, an entry
+without a value — each reaches a panic site when instantiated, also on a hidden field (non-vacuity of the theorem's premise
+and of the panic sites) -/
+example :
+    verify demoSch (demoOut [.inline (b!"task"), .unescape]) = true ∧
+    verify demoSch (demoOut [.inline (b!"task")]) = false ∧ (construct demoSch (demoOut [.inline (b!"task")])).toOption = none ∧
+    verify demoSch (demoOut [.copy, .unescape]) = false ∧ (construct demoSch (demoOut [.copy, .unescape])).toOption = none ∧
+    verify demoSch (demoOut [.inline (b!"nope"), .copy]) = false ∧
+      (construct demoSch (demoOut [.inline (b!"nope"), .copy])).toOption = none ∧
+    verify demoSch (demoOut [.unspecified]) = false ∧ (construct demoSch (demoOut [.unspecified])).toOption = none := by decide
 
 end C16
